@@ -62,7 +62,14 @@ fn get_comment_style(text: &str) -> CommentStyle {
 fn get_follow_leading(text: &str) -> Option<usize> {
     text.lines()
         .skip(1)
-        .map(|line| line.chars().position(|c| c != ' ').unwrap_or(usize::MAX))
+        .map(|line| {
+            // A line of white space only (it is stripped from the output) does not count.
+            if line.trim().is_empty() {
+                usize::MAX
+            } else {
+                line.chars().position(|c| c != ' ').unwrap_or(usize::MAX)
+            }
+        })
         .min()
 }
 
